@@ -247,6 +247,39 @@ func runC17(p *eng.Prog, r *eng.Report, tier string) {
 		}
 		c.r.Floor("C17.8", "token literals with data in Next", nl, 1)
 	}
+	// ---- C17.9 no emission depends on a look-ahead that did not ask for data ---------
+	// scanSpan may look at the byte after the current one (p0[i+1]) to tell "**"
+	// from "*", but only where nothing is emitted: whether that byte is in the
+	// buffer depends on how the input was chunked. No token-emitting return of
+	// scanSpan is dominated by a fact about p0[(i + 1)] (in either polarity)
+	// unless it is also dominated by atEOF or by "the line is complete".
+	if sp := c.fn("C17.9", "styling", "(*Decoder).scanSpan"); sp != nil {
+		g := sp.Graph()
+		n := 0
+		for _, rs := range g.Returns {
+			if len(rs.Results) != 3 {
+				continue
+			}
+			if k, isK := sp.ConstInt(rs.Results[0]); isK && k == 0 {
+				continue // asks for more data / emits nothing
+			}
+			n++
+			pt, _ := g.Where(rs)
+			bad := ""
+			for _, a := range g.FactsAt(pt) {
+				if strings.Contains(a, "p0[(rangekey(p0) + 1)]") {
+					bad = a
+				}
+			}
+			if bad != "" {
+				if okE, _ := g.DominatedAny(pt, []string{"p1"}); okE {
+					bad = ""
+				}
+			}
+			c.r.Check("C17.9", sp, "emission does not depend on an unrequested look-ahead", "G: a token-emitting return of scanSpan is not dominated by a fact about the byte after the current one (its presence depends on the chunking), unless the input has ended", rs.Pos(), bad == "", "dominated by "+bad+": with a read boundary right after the current byte the other branch is taken")
+		}
+		c.r.Floor("C17.9", "token-emitting returns of scanSpan", n, 3)
+	}
 	// ---- C17.4b an open span has priority over block-level constructs -----------------
 	if sc := c.fn("C17.4", "styling", "(*Decoder).scan"); sc != nil {
 		nb := 0
